@@ -89,7 +89,7 @@ func (m *Model) RunPathAPI(s *Sink, rule string) {
 		s.Undecided(rule, "path-api sites", "-", "expected at least two uses each of TemplateExt and TemplateDir in path functions (filter, name derivation, walk, join); found %d and %d", nExt, nDir)
 	}
 	// the walk callback registers a file only if its path ends in the extension and it is not a directory
-	ftf := m.PkgFunc("textwire", "findTextwireFiles")
+	ftf := m.PkgFuncOr("textwire", "findTextwireFiles", func(f *ssa.Function) bool { return callsNamed(f, "Walk", "path/filepath") || callsNamed(f, "WalkDir", "path/filepath") })
 	if ftf == nil {
 		s.Undecided(rule, "findTextwireFiles", "-", "not found")
 	} else {
@@ -151,7 +151,7 @@ func (m *Model) RunPathAPI(s *Sink, rule string) {
 		}
 	}
 	// the file of a template name: <dir>/<name><ext>, the extension appended unconditionally
-	if tfp := m.PkgFunc("textwire", "templateFullPath"); tfp != nil {
+	if tfp := m.PkgFuncOr("textwire", "templateFullPath", func(f *ssa.Function) bool { return callsNamed(f, "Abs", "path/filepath") && !readsGlobal(f, "usesTemplates") && len(f.Params) == 1 }); tfp != nil {
 		ok := false
 		for _, b := range tfp.Blocks {
 			for _, in := range b.Instrs {
@@ -207,7 +207,7 @@ func (m *Model) RunPathAPI(s *Sink, rule string) {
 		}
 	}
 	// layouts are not directly renderable
-	pp := m.PkgFunc("textwire", "parsePrograms")
+	pp := m.PkgFuncOr("textwire", "parsePrograms", func(f *ssa.Function) bool { return callsNamed(f, "HasReserveStmt", "ast.Program") })
 	if pp != nil {
 		ok := false
 		var pos string
@@ -280,7 +280,7 @@ func (m *Model) RunPathAPI(s *Sink, rule string) {
 	// EvaluateFile == EvaluateString(content)
 	ef := m.PkgFunc("textwire", "EvaluateFile")
 	es := m.PkgFunc("textwire", "EvaluateString")
-	fc := m.PkgFunc("textwire", "fileContent")
+	fc := m.PkgFuncOr("textwire", "fileContent", func(f *ssa.Function) bool { return callsNamed(f, "ReadFile", "os.") || callsNamed(f, "Open", "os.") })
 	if ef != nil && es != nil && fc != nil {
 		ok := false
 		for _, b := range ef.Blocks {
